@@ -84,7 +84,8 @@ class FileHooks(A.Hooks):
             k = state.env.get('__new', 0)
             state.env['__new'] = k + 1
             key = interp.ev(node.func.slice, state)
-            return A.Obj('node%d' % k, {'class': key if isinstance(key, str) else 'TOP'}, cls=self.Macro)
+            # (the node has an id of its own, which is not the label it is filed under)
+            return A.Obj('node%d' % k, {'class': key if isinstance(key, str) else 'TOP', 'id': 'id-of-node%d' % k}, cls=self.Macro)
         if fname.startswith('log.'):
             return A.NONE
         if fname == 'dict' and not args and not kwargs:
